@@ -131,10 +131,14 @@ type Q struct {
 	Fuzz  int      `json:"fuzz,omitempty"`
 	PLen  int      `json:"plen,omitempty"`
 
-	Min, Max       *float64 `json:"min,omitempty"`
-	IncMin, IncMax *bool    `json:"incmin,omitempty"`
-	MinS, MaxS     string   `json:"mins,omitempty"`
-	Start, End     string   `json:"start,omitempty"` // RFC3339Nano, "" = open
+	Min    *float64 `json:"min,omitempty"`
+	Max    *float64 `json:"max,omitempty"`
+	IncMin *bool    `json:"incmin,omitempty"`
+	IncMax *bool    `json:"incmax,omitempty"`
+	MinS   string   `json:"mins,omitempty"`
+	MaxS   string   `json:"maxs,omitempty"`
+	Start  string   `json:"start,omitempty"` // RFC3339Nano, "" = open
+	End    string   `json:"end,omitempty"`
 	Bool           bool     `json:"bool,omitempty"`
 	IDs            []string `json:"ids,omitempty"`
 
